@@ -17,7 +17,9 @@ RULE = ("case = (directory tree: depth <= 3, fan-out <= 4, empty directories and
         "2c,2c+1,k*c, arbitrary; filter none / reject a set of base names / reject by suffix; upload or download; whole "
         "tree or single file) over a classic connection pair. oracle: destination == source minus every entry whose base "
         "name the filter rejects (with its subtree): same relative paths (directories included), byte-identical files, "
-        "nothing else; a missing top-level path raises ValueError. non-trivial = a file whose size is a multiple of the "
+        "nothing else - observed at the moment the call returns and again at the end; optionally the source files are then "
+        "rewritten (same names, other bytes, same or half the size) and transferred again over the existing destination, "
+        "with the same oracle; a missing top-level path raises ValueError. non-trivial = a file whose size is a multiple of the "
         "chunk or one off, or a filter that rejects a directory. distinct by (shape, sizes mod chunk, chunk, filter).")
 ASSUMPTIONS = ["both peers share one filesystem (separate temporary source and destination directories)"]
 
@@ -25,8 +27,11 @@ CHUNKS = [1, 2, 3, 7, 64, 4096, 64000]
 NAMES = ["a", "b.txt", "c d", "é.bin", "x.tmp", "skip", ".hidden", "deep", "data.tmp", "ü ö", "n.o.t", "Z", " lead", "trail ", "tab\tin"]
 
 
-def content(seed, size):
-    return hashlib.shake_256(b"c20:%d" % seed).digest(size) if size else b""
+def content(seed, size, again=None):
+    """`again`: the second version of the same file (other bytes; same or half the size)"""
+    if again == "half-size":
+        size //= 2
+    return hashlib.shake_256(b"c20:%d%s" % (seed, b":v2" if again else b"")).digest(size) if size else b""
 
 
 def size_of(bucket, c, k):
@@ -38,15 +43,16 @@ def size_of(bucket, c, k):
     return n
 
 
-def materialise(root, tree, c):
-    os.makedirs(root)
+def materialise(root, tree, c, again=None):
+    if not os.path.isdir(root):
+        os.makedirs(root)
     for name, node in tree:
         p = os.path.join(root, name)
         if node[0] == "d":
-            materialise(p, node[1], c)
+            materialise(p, node[1], c, again)
         else:
             with open(p, "wb") as f:
-                f.write(content(node[2], size_of(node[1], c, node[2])))
+                f.write(content(node[2], size_of(node[1], c, node[2]), again))
 
 
 def scan(root):
@@ -62,7 +68,7 @@ def scan(root):
     return out
 
 
-def expected(tree, c, accept, prefix=""):
+def expected(tree, c, accept, prefix="", again=None):
     out = {}
     for name, node in tree:
         if not accept(name):
@@ -70,9 +76,9 @@ def expected(tree, c, accept, prefix=""):
         rel = os.path.normpath(os.path.join(prefix, name))
         if node[0] == "d":
             out[rel] = None
-            out.update(expected(node[1], c, accept, rel))
+            out.update(expected(node[1], c, accept, rel, again))
         else:
-            out[rel] = content(node[2], size_of(node[1], c, node[2]))
+            out[rel] = content(node[2], size_of(node[1], c, node[2]), again)
     return out
 
 
@@ -136,6 +142,9 @@ def check(case, rec):
         classes.append("filter-rejects-dir")
     key = {"shape": _shape(tree, c), "chunk": c, "filter": case["filter"], "direction": case["direction"], "mode": case["mode"]}
     rec.case(key if nontrivial else case, nontrivial, classes)
+    again = case.get("again")
+    if again:
+        classes.append("second-transfer-over-existing-destination:" + again)
     fails = []
     work = tempfile.mkdtemp(prefix="verif_c20_")
     try:
@@ -150,11 +159,22 @@ def check(case, rec):
                 fn = classic.upload if case["direction"] == "upload" else classic.download
                 if case["mode"] == "tree":
                     fn(conn, src, dst, filter=filt, **kw)
+                    # what the destination holds at the moment the call returns (nothing else has run since)
+                    out["at_return"] = scan(dst) if os.path.isdir(dst) else None
+                    if again:
+                        materialise(src, tree, c, again)          # same names, other bytes (same or half the size)
+                        fn(conn, src, dst, filter=filt, **kw)
+                        out["at_return2"] = scan(dst) if os.path.isdir(dst) else None
                 elif case["mode"] == "file":
                     files = [n for n, node in tree if node[0] == "f"]
                     if files:
                         fn(conn, os.path.join(src, files[0]), dst, **kw)
                         out["single"] = files[0]
+                        out["at_return"] = open(dst, "rb").read() if os.path.isfile(dst) else None
+                        if again:
+                            materialise(src, tree, c, again)
+                            fn(conn, os.path.join(src, files[0]), dst, **kw)
+                            out["at_return2"] = open(dst, "rb").read() if os.path.isfile(dst) else None
                 else:
                     try:
                         fn(conn, os.path.join(src, "does-not-exist"), dst, **kw)
@@ -176,33 +196,51 @@ def check(case, rec):
             if "single" in out:
                 name = out["single"]
                 node = dict((n, x) for n, x in tree)[name]
-                want = content(node[2], size_of(node[1], c, node[2]))
-                got = open(dst, "rb").read() if os.path.isfile(dst) else None
-                if got != want:
-                    fails.append(Failure("file-content", _diffkind(got, want, c), case, None if got is None else len(got), len(want)))
+                snapshots = [("when the call returned", None, out.get("at_return"))]
+                if again:
+                    snapshots.append(("when the second call returned", again, out.get("at_return2")))
+                snapshots.append(("in the end", again, open(dst, "rb").read() if os.path.isfile(dst) else None))
+                for when, ag, got in snapshots:
+                    want = content(node[2], size_of(node[1], c, node[2]), ag)
+                    if got != want:
+                        fails.append(Failure("file-content", _diffkind(got, want, c) + (" (%s)" % when if when != "in the end" else ""),
+                                             case, None if got is None else len(got), len(want)))
+                        break
         else:
-            want = expected(tree, c, accept)
-            got = scan(dst) if os.path.isdir(dst) else {}
-            if not os.path.isdir(dst):
-                fails.append(Failure("tree", "destination directory not created", case))
-            missing = sorted(set(want) - set(got))
-            extra = sorted(set(got) - set(want))
-            if missing:
-                kind = "directory-missing" if want[missing[0]] is None else "file-missing"
-                fails.append(Failure("tree", kind, case, missing[:4]))
-            if extra:
-                fails.append(Failure("tree", "entry-that-the-filter-rejects-or-nobody-sent", case, extra[:4]))
-            for rel in sorted(set(want) & set(got)):
-                if want[rel] != got[rel]:
-                    if want[rel] is None or got[rel] is None:
-                        fails.append(Failure("tree", "file-vs-directory", case, rel))
-                    else:
-                        fails.append(Failure("file-content", _diffkind(got[rel], want[rel], c), case,
-                                             [rel, len(got[rel])], len(want[rel])))
+            snapshots = [("when the call returned", None, out.get("at_return"))]
+            if again:
+                snapshots.append(("when the second call returned", again, out.get("at_return2")))
+            snapshots.append(("in the end", again, scan(dst) if os.path.isdir(dst) else None))
+            for when, ag, got in snapshots:
+                fails += _compare_tree(case, tree, c, accept, ag, got, "" if when == "in the end" else " (%s)" % when)
+                if fails:
                     break
     finally:
         shutil.rmtree(work, ignore_errors=True)
     return fails[:3]
+
+
+def _compare_tree(case, tree, c, accept, again, got, when):
+    fails = []
+    want = expected(tree, c, accept, again=again)
+    if got is None:
+        return [Failure("tree", "destination directory not created" + when, case)]
+    missing = sorted(set(want) - set(got))
+    extra = sorted(set(got) - set(want))
+    if missing:
+        kind = "directory-missing" if want[missing[0]] is None else "file-missing"
+        fails.append(Failure("tree", kind + when, case, missing[:4]))
+    if extra:
+        fails.append(Failure("tree", "entry-that-the-filter-rejects-or-nobody-sent" + when, case, extra[:4]))
+    for rel in sorted(set(want) & set(got)):
+        if want[rel] != got[rel]:
+            if want[rel] is None or got[rel] is None:
+                fails.append(Failure("tree", "file-vs-directory" + when, case, rel))
+            else:
+                fails.append(Failure("file-content", _diffkind(got[rel], want[rel], c) + when, case,
+                                     [rel, len(got[rel])], len(want[rel])))
+            break
+    return fails
 
 
 def _diffkind(got, want, c):
@@ -236,7 +274,8 @@ def cases():
     return st.fixed_dictionaries({"tree": trees(3), "chunk": st.sampled_from(CHUNKS + [1, 2, 3, 7, 64]), "filter": filt,
                                   "direction": st.sampled_from(["upload", "download"]),
                                   "mode": st.sampled_from(["tree", "tree", "tree", "file", "missing"]),
-                                  "default_chunk": st.booleans()})
+                                  "default_chunk": st.booleans(),
+                                  "again": st.sampled_from([None, None, "same-size", "half-size"])})
 
 
 def plan(tier, scale):
